@@ -224,7 +224,7 @@ def roland_round(rep: Report, ctx, rng, cases, tag):
 # ------------------------------------------------------------------ CDDA
 
 
-def cdda_round(rep: Report, ctx, rng, tag):
+def cdda_round(rep: Report, ctx, rng, tag, cases=None):
     ntr = rng.randint(1, 6)
     lens = [rng.randint(1, 9) for _ in range(ntr)]
     lines = ['FILE "x.bin" BINARY']
@@ -237,8 +237,14 @@ def cdda_round(rep: Report, ctx, rng, tag):
     with E.Scratch() as s:
         s.write("x.bin", bytes(pos * 2352 + tail))
         p = s.write("x.cue", ("\n".join(lines) + "\n").encode())
+        model = None
+        if ctx.model_available and cases is not None:
+            model = run_driver([f"akai all {p} " + " ".join(FA.hxs(f"Cut {t + 1}") for t in range(ntr))], timeout=600)[0].split(" || ")
         for t in range(ntr):
             out, err = E.ls_real(p, f"Cut {t + 1}")
+            if model is not None:
+                impl = "err " + err if err else "ok " + " ".join(FA.hxs(l) for l in FA.canon_ls(out))
+                cases.append(Case(f"cdda ls [{tag}] Cut {t + 1}", impl, {"model": model[t + 1] if len(model) > t + 1 else model[0]}))
             frames = lens[t] * 588  # whole CD frames; slack after the last frame is not audio
             exp = {"title": f"Cut {t + 1}", "num_channels": "2", "sample_rate": "44100", "bytes_per_sample": "2", "num_audio_samples": str(frames)}
             detail = {"image": tag, "item": f"Cut {t + 1}", "cue": lines, "bin_len": pos * 2352 + tail}
@@ -258,7 +264,7 @@ def run(ctx, rep: Report, deep: bool = False):
         "generated images in which every header field carries its own random in-range value: AKAI samples (names, type, rate incl. 0, counts, markers, tuning bytes, loop mode, 0-8 loop entries), "
         "AKAI programs (every header field; 1-5 keygroups at standard, gapped, shuffled or sequential addresses with a stray next-address on the last; 0-4 non-empty velocity zones in leading or scattered slots), "
         "Roland samples (mode, frequency code, loop mode, five 24-bit addresses with their fine bytes), CDDA tracks; `ls <item>` parsed back into key/value pairs and compared with the stored values; "
-        "the same listings compared line by line with the Lean model (AKAI, Roland); distinct = (image, item); non-trivial = every item"
+        "the same listings compared line by line with the Lean model (AKAI, Roland, CDDA); distinct = (image, item); non-trivial = every item"
     )
     cases = []
     for i in range(ctx.n(8, 120)):
@@ -266,7 +272,7 @@ def run(ctx, rep: Report, deep: bool = False):
     for i in range(ctx.n(2, 20)):
         roland_round(rep, ctx, rng, cases, f"roland{i}")
     for i in range(ctx.n(6, 60)):
-        cdda_round(rep, ctx, rng, f"cdda{i}")
+        cdda_round(rep, ctx, rng, f"cdda{i}", cases)
     if ctx.model_available:
         bad = 0
         for c in cases:
